@@ -471,8 +471,13 @@ class ReadAndProcessOnTheFly:
         """Read and process content from a file."""
         # we may open at a time where the file
         # is currently not open for reading
+        # a multi-byte character that is only partly written must not raise:
+        # it can only be part of a line that is not terminated yet
+        kwargs = {} if "b" in self.read_mode else {"errors": "surrogateescape"}
         try:
-            with open(self.file_path, self.read_mode) as self.file_object:
+            with open(
+                self.file_path, self.read_mode, **kwargs
+            ) as self.file_object:
                 self.file_object.seek(self.current_position)
                 return self.processing_function(self)
         except FileNotFoundError:
